@@ -361,8 +361,8 @@ func guarded(f func() error) (err error, panicked bool, hang bool, msg string) {
 	}()
 	select {
 	case <-done:
-	case <-time.After(20 * time.Second):
-		return errors.New("hang"), false, true, "the call did not return within 20s"
+	case <-time.After(90 * time.Second):
+		return errors.New("hang"), false, true, "the call did not return within 90s"
 	}
 	return
 }
